@@ -161,6 +161,9 @@ def bag(F, b):
                     ots = [strip_payload(pv.of_operand(o)) for o in rv['ops']]
                     if all(isinstance(o, tuple) and len(o) == 3 and o[0] == 'f' and o[2] == str(i) for i, o in enumerate(ots)) and len({o[1] for o in ots}) == 1:
                         continue
+                    # `Self { field: v, ..self }` in a by-value setter is a field store (what is stored is decided by TR2 / OPT)
+                    if b['argc'] >= 1 and F.types[b['locals'][1]].get('p') == rv['ak'][4:].rsplit('::', 1)[0] and any(o == ('f', ('param', 1), str(i)) for i, o in enumerate(ots)):
+                        continue
                 ev[('AGGR', ak, depth, ctx_of(bi), ())] += 1
             elif s['dst']['l'] == 0 and not s['dst']['p'] and rv['k'] == 'use' and rv['ops'][0]['k'] == 'const':
                 ev[('RET', rv['ops'][0]['v'], depth, ctx_of(bi), ())] += 1
@@ -290,6 +293,9 @@ def sem_bag(F, b, seen=None, env=None, owner_public=None):
                 if len(rv['ops']) >= 2:
                     ots = [strip_payload(pv.of_operand(o)) for o in rv['ops']]
                     if all(isinstance(o, tuple) and len(o) == 3 and o[0] == 'f' and o[2] == str(i) for i, o in enumerate(ots)) and len({o[1] for o in ots}) == 1:
+                        continue
+                    # `Self { field: v, ..self }` in a by-value setter is a field store, not a new object
+                    if b['argc'] >= 1 and F.types[b['locals'][1]].get('p') == raw.rsplit('::', 1)[0] and any(o == ('f', ('param', 1), str(i)) for i, o in enumerate(ots)):
                         continue
                 ev.add(('A', ak))
             elif rv['k'] == 'aggr' and rv['ak'].startswith('closure:'):
